@@ -51,12 +51,12 @@ def register(K):
         b = eng.spec_value("i.module_body._list", st, {"i": interp})
         m = eng.spec_value("i.memory", st, {"i": interp})
         h0_ = z3.Const("H0.cls", z3.ArraySort(Int, Int))
-        memo_ok = eng.rules.forall_pred_array("MEMO_NOMARK", lambda x: z3.And(z3.Not(mark_term(x)), Val.is_R(x),
-                                                                           z3.Select(h0_, Val.r(x)) != clsid("type")),
+        not_container = lambda x: z3.And([z3.Select(h0_, Val.r(x)) != clsid(k) for k in ("type", "list", "tuple", "dict", "set")])  # noqa
+        memo_ok = eng.rules.forall_pred_array("MEMO_NOMARK", lambda x: z3.And(z3.Not(mark_term(x)), Val.is_R(x), not_container(x)),
                                               z3.ArraySort(Val, Val))
         # stack slots are objects (AST nodes or marks), never class objects: `isinstance(slot, type)` is false
         h0 = z3.Const("H0.cls", z3.ArraySort(Int, Int))
-        slots = eng.rules.forall_pred("SLOTS", lambda x: z3.And(Val.is_R(x), z3.Select(h0, Val.r(x)) != clsid("type")))
+        slots = eng.rules.forall_pred("SLOTS", lambda x: z3.And(Val.is_R(x), not_container(x)))
         return vbool(z3.And(PRIVATE(s.t), PRIVATE(b.t), s.t != b.t, memo_ok(st.read("dict.map", m.t)), slots(st.items(s.t))))
 
     @K.spec("is_mark")
